@@ -52,6 +52,7 @@ use futures::task;
 use futures::task::{Poll, Context};
 
 use std::sync::*;
+#[cfg(desync_verif)] use vsched::sync::{Mutex, Condvar};
 use std::pin::{Pin};
 use std::collections::VecDeque;
 
